@@ -95,7 +95,7 @@ pub fn worker_exec(case: &Value) -> Value {
     let family = case["family"].as_str().unwrap_or("lost").to_string();
     let nres = case["resources"].as_u64().unwrap_or(2) as usize;
     let advances = case["advances"].as_u64().unwrap_or(1) as usize;
-    x3::run_controlled(case, HORIZON, move || scenario(&family, nres, advances))
+    x3::run_controlled(case, HORIZON, move |_sched| scenario(&family, nres, advances))
 }
 
 fn scenario(family: &str, nres: usize, advances: usize) -> Value {
